@@ -86,10 +86,11 @@ Definition eq_obs (s1 s2 : astate) : list N :=
       if (attr_wf s1 && attr_wf s2)%bool then 1%N else 0%N].
 
 (* Which guard of the theorems does a run leave first?  [class; step]:
-   0 = none (C11_refines_run applies to the whole run), 1 = the initial store collides with the default
-   namespace (13b/13e), 2 = an entry is removed while another held object is a live view of it (23),
-   3 = renaming between no namespace and the default namespace, 4 = outside the stated domain (illegal
-   accessor, no such object), 5 = the initial state is not well-formed for another reason *)
+   0 = none (C11_refines_run applies to the whole run), 1 = the initial store holds {d}name for the default
+   namespace d (13b/13e; since fix bde0777 only the accessor ("", name) misbehaves there), 2 = an entry is
+   removed while another held object is a live view of it (two live objects for one entry), 3 = unused since
+   fix 159ed68 (renaming between no namespace and the default namespace is inside the guard), 4 = outside
+   the stated domain (illegal accessor, no such object), 5 = the initial state is not well-formed otherwise *)
 Definition is_rename_alias (y : sys) (x : op) : bool :=
   let '(s, T) := y in
   let chk (i : nat) (f : qname -> qname) :=
